@@ -55,7 +55,7 @@ theorem exec_callExpr {G : GCtx} (ok : G.OK) (fuel : Nat) (hcs : ∀ k, k < fuel
     (hstack : G.spv ≤ sp + dep * G.smax) (g : String) (args : List X.Expr) (hg : g ∈ G.pnames)
     (hp : ∀ e ∈ args, pureE e = true) (σ : X.St)
     (gs : GS) (code : Code) (gs' : GS) (i : Nat) (a b : Word) (mem : Mem)
-    (hgen : genExpr (G.ctxOf pi) (optExpr (annotate (fun _ => none) (.call g args))) .A gs = .ok (code, gs'))
+    (hgen : genExpr (G.ctxOf pi) (optExpr (annotate G.rho (.call g args))) .A gs = .ok (code, gs'))
     (hat : At G.env.ds i (lowerCode G.cg code)) (hr : Rep (KOf G pi sp dep hi) σ mem)
     (hsz : gs'.size ≤ G.S pi) (hnl : pi.p.locals.length ≤ gs.offset) (hci : ConstsIn (KOf G pi sp dep hi) gs') :
     match X.eval fuel G.xc (.call g args) σ with
@@ -91,8 +91,6 @@ theorem exec_callExpr {G : GCtx} (ok : G.OK) (fuel : Nat) (hcs : ∀ k, k < fuel
             | undef w => trivial
             | exit cd s' =>
               simp only
-              obtain ⟨ws, hws⟩ := callUser_ints f G.xc pj.p vs s (ok.formals_val pj hpj) (by rw [hcu]; intro w h; simp at h)
-              subst hws
               rw [annot_call] at hgen
               obtain ⟨kind, hk, hseq⟩ := genExpr_call_inv _ _ _ _ _ _ _ _ hgen
               obtain ⟨_, hk'⟩ := exprCallKind_inv _ _ _ _ _ _ hk
@@ -112,7 +110,7 @@ theorem exec_callExpr {G : GCtx} (ok : G.OK) (fuel : Nat) (hcs : ∀ k, k < fuel
                 rw [hf, hname]
                 rfl
               rw [hkk] at hseq
-              have := exec_usercall ok f (hcs f (Nat.lt_succ_self _)) hpi hpj sp dep hi hlo hspv hstack args f st s ws hp hev
+              have := exec_usercall ok f (hcs f (Nat.lt_succ_self _)) hpi hpj sp dep hi hlo hspv hstack args f st s vs hp hev
                 gs code gs' i a b mem hseq hat hrs hsz hnl hci
               rw [hcu] at this
               obtain ⟨c, hst, hex⟩ := this
@@ -124,8 +122,6 @@ theorem exec_callExpr {G : GCtx} (ok : G.OK) (fuel : Nat) (hcs : ∀ k, k < fuel
               | none => trivial
               | some w =>
                 simp only
-                obtain ⟨ws, hws⟩ := callUser_ints f G.xc pj.p vs s (ok.formals_val pj hpj) (by rw [hcu]; intro w h; simp at h)
-                subst hws
                 rw [annot_call] at hgen
                 obtain ⟨kind, hk, hseq⟩ := genExpr_call_inv _ _ _ _ _ _ _ _ hgen
                 obtain ⟨_, hk'⟩ := exprCallKind_inv _ _ _ _ _ _ hk
@@ -145,7 +141,7 @@ theorem exec_callExpr {G : GCtx} (ok : G.OK) (fuel : Nat) (hcs : ∀ k, k < fuel
                   rw [hf, hname]
                   rfl
                 rw [hkk] at hseq
-                have := exec_usercall ok f (hcs f (Nat.lt_succ_self _)) hpi hpj sp dep hi hlo hspv hstack args f st s ws hp hev
+                have := exec_usercall ok f (hcs f (Nat.lt_succ_self _)) hpi hpj sp dep hi hlo hspv hstack args f st s vs hp hev
                   gs code gs' i a b mem hseq hat hrs hsz hnl hci
                 rw [hcu] at this
                 obtain ⟨a', b', mem', hst, rep', hres', _⟩ := this
@@ -228,8 +224,6 @@ theorem callLeaf_of_spec {G : GCtx} (ok : G.OK) (pk : PureOk G.xc) {pi : PInfo} 
               simp only [Res.ok.injEq, Val.int.injEq] at hev
               obtain ⟨hw, hs'⟩ := hev
               subst hw; subst hs'
-              obtain ⟨ws, hws⟩ := callUser_ints f G.xc pj.p vs s (ok.formals_val pj hpj) (by rw [hcu]; intro w h; simp at h)
-              subst hws
               have hsA := evalArgs_pure G.xc args f st s _ hargs hea
               have hlk : G.xc.genv.lookup g = some (.proc pj.p) := by rw [hp, hpp]
               have hsC : Sim s s' := ((pure_all G.xc pk f).2.2.1 (keys s.locals) g pj.p _ hlk himp s rfl).1 _ _ hcu
@@ -255,7 +249,7 @@ theorem callLeaf_of_spec {G : GCtx} (ok : G.OK) (pk : PureOk G.xc) {pi : PInfo} 
                 rfl
               rw [hkk] at hseq
               have hrs : Rep (KOf G pi sp dep hi) st mem := hr.same hs
-              have := exec_usercall ok f (hcs f (Nat.lt_succ_self _)) hpi hpj sp dep hi hlo hspv hstack args f st s ws hargs hea
+              have := exec_usercall ok f (hcs f (Nat.lt_succ_self _)) hpi hpj sp dep hi hlo hspv hstack args f st s vs hargs hea
                 gs code gs' i a b mem hseq hat hrs hsz hnl' hci
               rw [hcu] at this
               obtain ⟨a', b', mem', hst, rep', hres', frm⟩ := this
@@ -290,7 +284,7 @@ theorem condOK_pp (c : X.Expr) (hpp : ppE G.pnames G.xc.impure c = true) : CondO
 
 /-- A right-hand side with calls of pure functions. -/
 theorem execE_pp (e : X.Expr) (hpp : ppE G.pnames G.xc.impure e = true) (st : X.St) :
-    ExecE (KOf G pi sp dep hi) (optExpr (annotate (fun _ => none) e)) st (X.eval F G.xc e st) := by
+    ExecE (KOf G pi sp dep hi) (optExpr (annotate G.rho e)) st (X.eval F G.xc e st) := by
   intro gs code gs' i a b mem hgen hat hr hsz hnl hci
   have hC := condOK_pp ok pk hpi sp dep hi hlo hspv hstack F hcs e hpp
   unfold OutE
@@ -444,11 +438,14 @@ theorem execS_callStmt {G : GCtx} (ok : G.OK) (fuel : Nat) (hcs : ∀ k, k < fue
     {pi : PInfo} (hpi : pi ∈ G.procs) (sp dep : Nat) (hi : Nat → Word) (hlo : G.lo ≤ sp) (hspv : sp + G.S pi + pi.po + pi.p.formals.length ≤ G.spv + 1)
     (hstack : G.spv ≤ sp + dep * G.smax) (g : String) (args : List X.Expr) (hg : g ∈ G.pnames)
     (hp : ∀ e ∈ args, pureE e = true) (σ : X.St) :
-    ExecS (KOf G pi sp dep hi) (G.iEpi pi) (optStmt (annotS (fun _ => none) (.call g args))) σ
+    ExecS (KOf G pi sp dep hi) (G.iEpi pi) (optStmt (annotS G.rho (.call g args))) σ
       (X.exec fuel G.xc (.call g args) σ) := by
   intro gs code gs' i a b mem hgen hat hr hsz hnl hci
-  have hopt : optStmt (annotS (fun _ => none) (.call g args)) = .call (-1) g (optArgsOf (fun _ => none) args) := by
-    simp only [annotS, optStmt, optArgs_map]
+  have hrg : G.rho g = none := by
+    obtain ⟨p, hp⟩ := ok.pnames_mem g hg
+    exact ok.rho_none g (fun w => by rw [hp]; simp)
+  have hopt : optStmt (annotS G.rho (.call g args)) = .call (-1) g (optArgsOf G.rho args) := by
+    simp only [annotS, optStmt, optArgs_map, sysOf, hrg]
   rw [hopt, genStmt_call_eq] at hgen
   rw [if_neg (by decide)] at hgen
   cases fuel with
@@ -483,9 +480,7 @@ theorem execS_callStmt {G : GCtx} (ok : G.OK) (fuel : Nat) (hcs : ∀ k, k < fue
             | undef w => trivial
             | exit cd s' =>
               simp only
-              obtain ⟨ws, hws⟩ := callUser_ints f G.xc pj.p vs s (ok.formals_val pj hpj) (by rw [hcu]; intro w h; simp at h)
-              subst hws
-              have := exec_usercall ok f (hcs f (Nat.lt_succ_self _)) hpi hpj sp dep hi hlo hspv hstack args f st s ws hp hev
+              have := exec_usercall ok f (hcs f (Nat.lt_succ_self _)) hpi hpj sp dep hi hlo hspv hstack args f st s vs hp hev
                 gs code gs' i a b mem hgen hat hrs hsz hnl hci
               rw [hcu] at this
               obtain ⟨c, hst, hex⟩ := this
@@ -493,9 +488,7 @@ theorem execS_callStmt {G : GCtx} (ok : G.OK) (fuel : Nat) (hcs : ∀ k, k < fue
               exact ⟨c, hst, hex⟩
             | ok r s' =>
               simp only
-              obtain ⟨ws, hws⟩ := callUser_ints f G.xc pj.p vs s (ok.formals_val pj hpj) (by rw [hcu]; intro w h; simp at h)
-              subst hws
-              have := exec_usercall ok f (hcs f (Nat.lt_succ_self _)) hpi hpj sp dep hi hlo hspv hstack args f st s ws hp hev
+              have := exec_usercall ok f (hcs f (Nat.lt_succ_self _)) hpi hpj sp dep hi hlo hspv hstack args f st s vs hp hev
                 gs code gs' i a b mem hgen hat hrs hsz hnl hci
               rw [hcu] at this
               obtain ⟨a', b', mem', hst, rep', _, _⟩ := this
@@ -506,8 +499,8 @@ theorem execS_callStmt {G : GCtx} (ok : G.OK) (fuel : Nat) (hcs : ∀ k, k < fue
 
 def StmtLSpec (G : GCtx) (fuel : Nat) : Prop :=
   ∀ pi ∈ G.procs, ∀ sp dep hi, G.lo ≤ sp → sp + G.S pi + pi.po + pi.p.formals.length ≤ G.spv + 1 → G.spv ≤ sp + dep * G.smax →
-    ∀ ss σ, okS5L G.pk G.pnames G.xc.impure ss = true →
-      ExecSL (KOf G pi sp dep hi) (G.iEpi pi) (optStmts (annotSL (fun _ => none) ss)) σ (X.execSeq fuel G.xc ss σ)
+    ∀ ss σ, okS5L G.pk G.pnames G.xc.impure G.rho ss = true →
+      ExecSL (KOf G pi sp dep hi) (G.iEpi pi) (optStmts (annotSL G.rho ss)) σ (X.execSeq fuel G.xc ss σ)
 
 theorem callE_inv (ps : List String) (e : X.Expr) (h : callE ps e = true) :
     ∃ g args, e = .call g args ∧ g ∈ ps ∧ ∀ a ∈ args, pureE a = true := by
@@ -516,7 +509,7 @@ theorem callE_inv (ps : List String) (e : X.Expr) (h : callE ps e = true) :
   exact ⟨g, args, rfl, h.1, h.2⟩
 
 theorem callSpec_zero (G : GCtx) : CallSpec G 0 := by
-  intro pi _ ws st lnk b mem spc k kind n _ _ _ _ _ _ _ _
+  intro pi _ ws st lnk b mem spc k kind n _ _ _ _ _ _ _ _ _
   rw [callUser_zero]; trivial
 
 /-- **Stage (4).**  For every fuel: the statement triples of every procedure in every activation
@@ -545,7 +538,7 @@ theorem all_correct {G : GCtx} (ok : G.OK) : ∀ fuel, StmtSpec G fuel ∧ StmtL
         | stop => exact execS_stop _ _ wf _ σ
         | ret e =>
           simp only [okS5, rhs5, Bool.or_eq_true, Bool.and_eq_true] at hok
-          have : optStmt (annotS (fun _ => none) (.ret e)) = .ret (optExpr (annotate (fun _ => none) e)) := by
+          have : optStmt (annotS G.rho (.ret e)) = .ret (optExpr (annotate G.rho e)) := by
             simp [annotS, optStmt]
           rw [this]
           rcases hok with (hpure | hcall) | ⟨hpk, hpp⟩
@@ -561,7 +554,7 @@ theorem all_correct {G : GCtx} (ok : G.OK) : ∀ fuel, StmtSpec G fuel ∧ StmtL
               hgen hat hr hsz hnl hci
         | assign n e =>
           simp only [okS5, rhs5, Bool.or_eq_true, Bool.and_eq_true] at hok
-          have : optStmt (annotS (fun _ => none) (.assign n e)) = .assign n (optExpr (annotate (fun _ => none) e)) := by
+          have : optStmt (annotS G.rho (.assign n e)) = .assign n (optExpr (annotate G.rho e)) := by
             simp [annotS, optStmt]
           rw [this]
           rcases hok with (hpure | hcall) | ⟨hpk, hpp⟩
@@ -599,14 +592,22 @@ theorem all_correct {G : GCtx} (ok : G.OK) : ∀ fuel, StmtSpec G fuel ∧ StmtL
           exact execS_syscall (KOf G pi sp dep hi) _ wf _ id args σ hok.1 hok.2
         | assignSub n i e =>
           simp only [okS5, Bool.and_eq_true] at hok
-          have : optStmt (annotS (fun _ => none) (.assignSub n i e))
-              = .assignSub n (optExpr (annotate (fun _ => none) i)) (optExpr (annotate (fun _ => none) e)) := by
+          have : optStmt (annotS G.rho (.assignSub n i e))
+              = .assignSub n (optExpr (annotate G.rho i)) (optExpr (annotate G.rho e)) := by
             simp [annotS, optStmt]
           rw [this]
           exact execS_assignSub (KOf G pi sp dep hi) _ wf _ n i e σ hok.1 hok.2
         | call g args =>
-          simp only [okS5, Bool.and_eq_true, List.all_eq_true, List.contains_iff_mem] at hok
-          exact execS_callStmt ok (F + 1) hcsF1 hpi sp dep hi hlo hspv hstack g args hok.1 hok.2 σ
+          simp only [okS5, Bool.and_eq_true, List.all_eq_true, Bool.or_eq_true, List.contains_iff_mem] at hok
+          rcases hok.1 with hps | hvs
+          · exact execS_callStmt ok (F + 1) hcsF1 hpi sp dep hi hlo hspv hstack g args hps hok.2 σ
+          · unfold valSys at hvs
+            cases hr : G.rho g with
+            | none => rw [hr] at hvs; simp at hvs
+            | some w =>
+              rw [hr] at hvs
+              simp only [decide_eq_true_eq] at hvs
+              exact execS_valcall (KOf G pi sp dep hi) _ wf _ g args σ w hr hvs hok.2
       · intro pi hpi sp dep hi hlo hspv hstack ss σ hok
         have ihS' := ihS pi hpi sp dep hi hlo hspv hstack
         have ihL' := ihL pi hpi sp dep hi hlo hspv hstack
@@ -625,7 +626,7 @@ theorem all_correct {G : GCtx} (ok : G.OK) : ∀ fuel, StmtSpec G fuel ∧ StmtL
           obtain ⟨c, gs1, cs, h1, h2, hcode⟩ := genStmts_cons_inv _ _ _ _ _ _ hg
           subst hcode
           have e2 : Eff gs1 gs' := by
-            have := genStmt_eff (KOf G pi sp dep hi).ctx (.seq (optStmts (annotSL (fun _ => none) rest))) gs1 cs gs'
+            have := genStmt_eff (KOf G pi sp dep hi).ctx (.seq (optStmts (annotSL G.rho rest))) gs1 cs gs'
               (by rw [genStmt_seq]; exact h2)
             exact this
           have e1 := genStmt_eff _ _ _ _ _ h1
